@@ -93,6 +93,13 @@ Theorem C03_crossing_is_cell_offset : forall S (r : pt * Z) (cx cy : Z),
 Proof. exact crossing_is_cell_offset. Qed.
 Print Assumptions C03_crossing_is_cell_offset.
 
+(* clause "so the lattice is trivalent": every vertex of an accepted lattice has exactly three edge ends *)
+Theorem C03_dual_trivalent : forall S tolS shift pts C L vt,
+  check_dual S tolS shift pts C L vt = true ->
+  forall v, (v < nV L)%nat -> count_ends L v = 3%nat.
+Proof. exact dual_trivalent. Qed.
+Print Assumptions C03_dual_trivalent.
+
 (* ---- non-vacuity: koala's actual output for 4 seeds on the 1/64 grid (float64 positions as exact
    dyadics), plain and shifted: both checkers accept *)
 Definition ex_plain_S : Z := 36028797018963968.
